@@ -7,6 +7,7 @@ import (
 	"go/types"
 	"sort"
 	"strings"
+	"sync"
 
 	"golang.org/x/tools/go/ssa"
 )
@@ -310,9 +311,13 @@ func (ex *Exec) term(st *State, v Value) Term {
 			return x.Base
 		}
 		if x.Cell == nil && x.Global == nil && !x.IsElem {
-			// address of a field of a heap object: abstracted to an opaque address (what is read
-			// through it later is arbitrary; writes through it forget the heaps it may point into)
-			ex.note("interior pointers stored as first-class values are abstracted to opaque addresses in %s", ex.sel)
+			// address of a field of a heap object: an opaque address (what is read through it
+			// later is arbitrary; writes through it forget the heaps it may point into) whose
+			// IDENTITY is canonical: &obj.f is fa$T$f(obj), injective and distinct per field
+			ex.note("interior pointers stored as first-class values are abstracted to opaque addresses (identity kept) in %s", ex.sel)
+			if len(x.Path) == 1 {
+				return ex.fieldAddrTerm(x.Base, x.Root, x.Path[0])
+			}
 			t := ex.fresh("iptr", SInt)
 			st.assume(and(gt(t, intLit(0)), lt(t, st.alloc)))
 			return t
@@ -325,6 +330,35 @@ func (ex *Exec) term(st *State, v Value) Term {
 	}
 	ex.unsupportedf("value %T has no term", v)
 	return Term{}
+}
+
+// fieldAddrTerm: the canonical identity of &base.f for a heap struct object.
+func (ex *Exec) fieldAddrTerm(base Term, root types.Type, field int) Term {
+	st := structOf(root)
+	fn := smtName("fa$", structKey(root)+"$"+st.Field(field).Name())
+	if !ex.d.has("fun:" + fn) {
+		ex.d.declFun(fn, []string{SInt}, SInt)
+		ex.d.declFun(fn+"$inv", []string{SInt}, SInt)
+		if !ex.d.has("fun:fa$tag") {
+			ex.d.declFun("fa$tag", []string{SInt}, SInt)
+		}
+		ex.d.axiom("fa:"+fn, fmt.Sprintf("(assert (forall ((b Int)) (! (and (= (%s$inv (%s b)) b) (> (%s b) 0) (= (fa$tag (%s b)) %d)) :pattern ((%s b)))))", fn, fn, fn, fn, faTagOf(fn), fn))
+	}
+	return app(SInt, fn, base)
+}
+
+var faTagIDs = map[string]int{}
+var faTagMu sync.Mutex
+
+func faTagOf(fn string) int {
+	faTagMu.Lock()
+	defer faTagMu.Unlock()
+	if id, ok := faTagIDs[fn]; ok {
+		return id
+	}
+	id := len(faTagIDs) + 1
+	faTagIDs[fn] = id
+	return id
 }
 
 func (ex *Exec) ptrString(p *PtrV) string {
